@@ -184,3 +184,7 @@ impl From<ScopeError> for ArgsError {
         Error::from(e).into()
     }
 }
+
+#[cfg(kani)]
+#[path = "/verif/kani/formalargs.rs"]
+mod kani_verif;
